@@ -857,6 +857,17 @@ func (fr *frame) iterRegion(v ssa.Value) string {
 func (fr *frame) loopEnv(li *loopInfo, phiVal func(*ssa.Phi) string, st *state) *specEnv {
 	env := fr.baseEnv(st)
 	env.pre = fr.entry
+	// a parameter that is reassigned inside the loop is a loop-carried variable: in loop clauses its name means the
+	// current value (the header phi), not the value on entry (write old(x) for that)
+	for l := li; l != nil; l = l.parent {
+		for _, instr := range l.header.Instrs {
+			phi, ok := instr.(*ssa.Phi)
+			if !ok {
+				break
+			}
+			delete(env.vars, phi.Comment)
+		}
+	}
 	env.lookup = func(name string) (binding, bool) {
 		// 1. phis of this header, then enclosing headers
 		for l := li; l != nil; l = l.parent {
